@@ -268,6 +268,8 @@ class Auditor:
                     elif op == 'Le':
                         lo = max(lo, k[0])
             if hi is None:
+                if lo > 0:
+                    return (lo, (1 << 64) - 1)     # only a lower bound so far (`'1' <= c`); an upper bound may follow
                 return r if r else None
             return (lo, hi)
         return r
@@ -912,6 +914,11 @@ def audit(ctx, R, entries, config='default'):
             desc = '%s %s(%s)' % (k, a['kind'], ', '.join(sh(o, 70) for o in a['ops']))
             if why:
                 ctx.ok(R, '%s -- %s' % (desc, why), where(body, a['line']))
+            elif '::{closure#' in k and any(isinstance(x, tuple) and x and x[0] == 'param' for o in a['ops'] for x in walk(norm(o))):
+                # the operand is an argument of a closure: its range depends on the adaptor that calls the closure
+                # (`(a..b).map(|i| v[i])`), which this audit does not follow
+                ctx.inconclusive(R, '%s: %s on a closure argument: the values the closure is called with are not tracked (%s)' % (
+                    k, a['kind'], ', '.join(sh(o, 70) for o in a['ops'])))
             else:
                 ctx.violation(R, '%s:%s:%s' % (k, a['kind'], '|'.join(sh(o, 90) for o in a['ops'])),
                               'possible panic (%s) not discharged: operands %s' % (a['kind'], [sh(o, 120) for o in a['ops']]),
